@@ -17,7 +17,7 @@ LEVEL_NOTE = "trusted: the reference ledger's own MTP / IsFinal / BIP68 / maturi
 
 
 def runs(tier, seed):
-    return [cc.make_run("timelock", tier, 48, 1000)]
+    return [cc.make_run("timelock", tier, 32, 480)]
 
 
 def check(rec, st):
